@@ -32,7 +32,7 @@ template<uint32_t OPT> static RWorld reset_world() {
     w.pl->blocks._nodes[0] = f; w.pl->blocks._nodes[1] = l; f->_list_nodes[1] = l; l->_list_nodes[0] = f;
     w.pl->cursor = nondet_bool() ? f : l; w.pl->block_count = 2;
     JitAllocatorBlock* r = w.b0_root ? w.b[0] : w.b[1]; JitAllocatorBlock* c = w.b0_root ? w.b[1] : w.b[0];
-    w.im->tree._root = r; if (c->rx_ptr() < r->rx_ptr()) r->_tree_left = c; else r->_tree_right = c;
+    w.im->tree._root = r; if (c->rx_ptr() < r->rx_ptr()) r->_tree_nodes[0] = c; else r->_tree_nodes[1] = c;
     w.pl->total_area_size[0] = 2 * A; w.pl->total_area_used[0] = w.pre[0].area_used + w.pre[1].area_used; w.pl->total_overhead_bytes = 2 * block_overhead(A);
     w.pl->empty_block_count = ((w.pre[0].flags | w.pre[1].flags) & kFE) ? 1 : 0;
     w.im->allocation_count = w.pre[0].stop_count() - w.pre[0].P() + w.pre[1].stop_count() - w.pre[1].P();
@@ -70,7 +70,7 @@ template<int MODE, bool FOLLOW_UP> static void check_reset_soft() {
   RWorld w = reset_world<0>();
   JitAllocatorBlock* keep = (!w.two || w.b0_first) ? w.b[0] : w.b[1];
   uint32_t ki = keep == w.b[0] ? 0 : 1;
-  bool stale_links = keep->_tree_left != nullptr || keep->_tree_right != nullptr;
+  bool stale_links = keep->_tree_nodes[0] != nullptr || keep->_tree_nodes[1] != nullptr;
   // known finding C09E: the kept block is re-inserted with the tree links it had in the old tree
   if (MODE == 1) V_ASSUME(stale_links);
   else {
@@ -80,7 +80,7 @@ template<int MODE, bool FOLLOW_UP> static void check_reset_soft() {
   }
   allocator()->reset(ResetPolicy::kSoft);
   V_ASSERT(!block_freed[ki] && vm_release_calls == (w.two ? 1 : 0) && (!w.two || block_freed[1 - ki]), "soft reset: the first block of the pool is kept, the other one is unmapped and freed");
-  V_ASSERT(w.im->tree._root == keep && keep->_tree_left == nullptr && keep->_tree_right == nullptr, "soft reset: the tree holds exactly the kept block");
+  V_ASSERT(w.im->tree._root == keep && keep->_tree_nodes[0] == nullptr && keep->_tree_nodes[1] == nullptr, "soft reset: the tree holds exactly the kept block");
   V_ASSERT(w.pl->blocks.first() == keep && w.pl->blocks.last() == keep && keep->_list_nodes[0] == nullptr && keep->_list_nodes[1] == nullptr && w.pl->cursor == keep && w.pl->block_count == 1, "soft reset: list and cursor hold exactly the kept block");
   BState<1> post; snapshot<1>(post, keep);
   uint32_t P = w.pre[ki].P();
@@ -101,7 +101,59 @@ HARNESS h_reset_soft() { check_reset_soft<0, false>(); }
 HARNESS h_reset_soft_then_alloc() { check_reset_soft<0, true>(); }
 HARNESS h_reset_soft_kf_C09E() { check_reset_soft<1, false>(); }
 
-// Not checked here: the fill pattern after a soft reset under kFillUnusedMemory (JitAllocatorImpl_wipeOutBlock). On this
-// tree the wipe fills the FREE ranges of the retained block instead of the used ones (reported as C09D, confirmed
-// natively through the public API); either way it stores ~1000 words into a 4 KiB array, which did not fit the
-// solver's memory cap (see spec.py OUTSIDE).
+// soft reset under kFillUnusedMemory (JitAllocatorImpl_wipeOutBlock): the memory of every span that was live carries the
+// fill pattern afterwards, and exactly the used runs are wiped and flushed. The pool granularity is scaled to 4 bytes (the
+// wipe is linear in it; real: 64..1024), so the block is 256 bytes of real memory; four concrete bit patterns entered on
+// separate paths (addresses and loop counts of the byte fill are then constants; BitVectorRangeIterator<., 1> is checked
+// from any state in unit bits). Pattern and the probed byte are symbolic.
+//   known finding C09D: the wipe iterates the FREE ranges. While it is open the main harness is confined to blocks without
+//   any used granule (nothing to wipe), the companion covers the blocks with live spans.
+static void check_reset_fill(uint64_t U, uint64_t S, uint32_t flags, uint32_t ss, uint32_t lua, bool check_ranges) {
+  constexpr uint32_t G4 = 4;
+  JitAllocatorPrivateImpl* im = make_impl(kOptFill, G4, 64 * G4, 1, nondet_u32()); JitAllocatorPool* pl = pool(0);
+  BState<1> s; s.U[0] = U; s.S[0] = S; s.flags = flags; s.area_used = popcount_v<1>(s.U); s.ss = ss; s.se = A; s.lua = lua;
+  V_ASSUME(inv_ok<1>(s));
+  JitAllocatorBlock* b = new_block_object<1>(0); store_state<1>(b, s); place_block<1>(b, pl, 0);
+  pl->blocks._nodes[0] = b; pl->blocks._nodes[1] = b; pl->cursor = b; pl->block_count = 1;
+  pl->total_area_size[0] = A; pl->total_area_used[0] = s.area_used; pl->total_overhead_bytes = block_overhead(A);
+  im->tree._root = b; im->allocation_count = s.stop_count() - s.P();
+  allocator()->reset(ResetPolicy::kSoft);
+  uint32_t probe = nondet_u8();
+  uint8_t now = arena_rx[probe]; verif_observe(now);
+  bool was_used = s.used(probe / G4);
+  if (was_used) V_ASSERT(now == uint8_t(im->fill_pattern >> (8 * (probe & 3))), "soft reset with fill: memory of every formerly used granule carries the fill pattern");
+  // the ranges handed to the instruction-cache flush are the used runs, in order
+  uint32_t runs = 0; bool ranges_ok = true; uint32_t i = 0;
+  while (i < A) {
+    if (!s.used(i)) { i++; continue; }
+    uint32_t j = i; while (j < A && s.used(j)) j++;
+    if (runs < 8) ranges_ok = ranges_ok && flush_ptr[runs] == static_cast<void*>(arena_rx + i * G4) && flush_size[runs] == size_t(j - i) * G4;
+    runs++; i = j;
+  }
+  if (check_ranges) V_ASSERT(flush_calls == int(runs) && ranges_ok, "soft reset with fill: exactly the used runs are wiped and flushed");
+  V_ASSERT(rw_depth == 0, "soft reset with fill: memory is executable again afterwards");
+  BState<1> post; snapshot<1>(post, b);
+  V_ASSERT(post.U[0] == s.P() && (post.flags & kFE), "soft reset with fill: the kept block is empty afterwards");
+  V_WITNESS("reset-fill");
+}
+template<int MODE> static void reset_fill_cases() {
+  uint32_t c = nondet_u8() & 7;
+  bool live = c != 0;                         // case 0: a block without any used granule (not flagged empty, see C09B)
+  if (MODE == 1) V_ASSUME(live);
+  else {
+#if KF_C09D
+    V_ASSUME(!live);
+#endif
+  }
+  bool cr = true;
+#if KF_C09D
+  cr = MODE == 1;
+#endif
+  if (c == 0) check_reset_fill(0, 0, kFI | kFD, 0, A, cr);                                            // nothing used, no padding
+  else if (c == 1) check_reset_fill(0x27, 0x25, kFP | kFD, 3, 0, cr);                                 // padding, spans [1,3) and [5,6)
+  else if (c == 2) check_reset_fill((1ull << 63) | 1, (1ull << 63) | 1, kFD, 1, 0, cr);               // no padding, spans [0,1) and [63,64)
+  else if (c == 3) check_reset_fill(~0ull & ~(3ull << 7), (1ull << 63) | (1ull << 6) | 1, kFP | kFD, 7, 0, cr);   // all used but [7,9)
+  else check_reset_fill((1ull << 10) - 1, (1ull << 9) | 1, kFP | kFI | kFD, 10, A - 10, cr);          // incremental, [0,10) used
+}
+HARNESS h_reset_fill() { reset_fill_cases<0>(); }
+HARNESS h_reset_fill_kf_C09D() { reset_fill_cases<1>(); }
